@@ -22,6 +22,14 @@ CLAIMED = {
         "text": "bounded: list fan-out (3+2 elements) with the context cancelled at 9 points x worker_limit 0/1/2 - the join terminates (deadlock = every task blocked is a violation) and no task survives; 7 @defer families consumed for one payload then cancelled - no task left blocked",
         "design_ref": "DESIGN.md section 4, C05", "note": _N + _PROBE + "; real context.WithCancel and x/sync/semaphore interpreted from source", "technique": _T + "; deadlock/leak detection by the deterministic task scheduler",
     },
+    "C11": {
+        "text": "bounded: wsConnection.init over 15 first-frame kinds x 6 payloads x 4 init functions x 2 subprotocols; subscribe and its goroutine over executor verdicts x 0..2 payloads x panic step x subscription error; per-id frame grammar, deregistration, close callback once, no overlapping Send",
+        "design_ref": "DESIGN.md section 4, C11", "note": _N + "; gorilla *websocket.Conn methods are name-intercepted stubs under the engine, native replays use a real loopback connection; unbounded scripts, duplicate ids and read-deadline timing are outside the bound", "technique": _T,
+    },
+    "C12": {
+        "text": "bounded: multipartResponseAggregator over 1 + 0..3 payloads with a symbolic flush tick at every point, bytes parsed by an independent multipart parser; SSE.Do with 0..2 payloads and a keep-alive ticker firing at any scheduling point with every write a preemption point: event grammar, exactly-once, no overlapping writes, race check",
+        "design_ref": "DESIGN.md section 4, C12", "note": _N + "; ticker modelled as a daemon task; TCP chunking and client disconnects are outside the bound", "technique": _T + "; schedule exploration with explicit preemption points",
+    },
     "C13": {
         "text": "bounded: 7 @defer families x symbolic if: variables x outcome deviations x every completion order of groups; arrival-order merge equals a defer-aware reference, delivery rules (path delivered before, hasNext, once per (path,label), termination); two genuine defects are recorded as known findings",
         "design_ref": "DESIGN.md section 4, C13", "note": _N + _PROBE, "technique": _T + "; schedule exploration, gated native replay of completion orders",
